@@ -137,6 +137,29 @@ class Lane(LaneBase):
             oracle = self.oracle(g, s, r1, iss, r2, s_iss, out, tags)
         else:
             tags.append('out-of-domain')
+            oracle = tsgen.coherence_failures(g)
+        if dom and zlib.crc32(tok.encode()) % 3 == 0:
+            # graphs the library itself hands out are ordinary graphs: the test on them, asked before anything else
+            for name, f in (('get_minimal_graph()', g.get_minimal_graph),
+                            ('from_adjacency_matrices(*to_numpy_by_lag())',
+                             lambda: type(g).from_adjacency_matrices(*g.to_numpy_by_lag())),
+                            ('extend_graph(1, 0)', lambda: g.extend_graph(1, 0))):
+                try:
+                    m = f()
+                except Exception:  # noqa: BLE001
+                    continue
+                mt, mi = tsgen.graph_args(m)
+                b, rb = tsgen.reply_bool(m.is_stationary_graph)
+                lines.append(f'ts isstationary {mt} {mi}')
+                out.append(rb)
+                mn = m.get_nodes()
+                if tsgen.in_domain(m) and mn and max(n.time_lag for n in mn) == 0:
+                    ms = tsgen.shape(m)
+                    mw = tsgen.spec_stationary_of(m)
+                    expect = tsgen.is_dag_spec(m) and ms[0] == mw[0] and self.norm(ms[1]) == self.norm(mw[1])
+                    if b is None or bool(b) != expect:
+                        oracle.append(f'isstat-derived: is_stationary_graph() of the graph returned by {name} answered '
+                                      f'{rb}; by the definition it is {expect}')
         lines, out, _cut = tsgen.fit_budget(lines, out)       # (after the oracle has seen every reply)
         return {'lines': lines, 'impl': out, 'oracle': oracle, 'nontrivial': dom and len(g.get_edges()) > 0,
                 'key': tsgen.digest(tok, idx), 'tags': tags}
